@@ -403,6 +403,9 @@ fn encode_subframe(
         } else {
             None
         };
+        // `fixed_lpc` may accept a candidate by an estimated size; keep it only
+        // if its real size beats the verbatim baseline.
+        let fixed = fixed.filter(|x| x.count_bits() < baseline_bits);
 
         let baseline_bits = fixed.as_ref().map_or(baseline_bits, |x| {
             std::cmp::min(baseline_bits, x.count_bits())
